@@ -102,6 +102,12 @@ pub fn fingerprint() -> [usize; 7] {
     })
 }
 
+/// The exploration flags of the path: `(exploring, skipping)`. Must be called
+/// inside a model. At the start of every iteration they are `(!expect_explicit_explore, false)`.
+pub fn path_flags() -> (bool, bool) {
+    rt::execution(|execution| execution.path.verif_flags())
+}
+
 pub(crate) fn record(path: &Path, index: usize, panicked: bool) {
     OBSERVER.with(|o| {
         // `try_borrow_mut`: never panic from here (may run during unwinding)
